@@ -1173,6 +1173,31 @@ char *__wrap_getenv(const char *k) {
         if (strncmp(p->env[i], k, kl) == 0 && p->env[i][kl] == '=') return p->env[i] + kl + 1;
     return NULL;   /* simulated processes see only their simulated environment */
 }
+
+/* setlocale(cat, "") asks libc to read the environment; libc would read the real one.  The seam resolves the request from
+ * the simulated process's environment (LC_ALL, then LC_<category>, then LANG) and hands libc the resulting name; the private
+ * locale xx_XX (decimal comma, built by the check into build/locale, found through LOCPATH) makes "an installed non-C
+ * locale" a configuration the environment family can draw.  A program that never calls setlocale is not affected. */
+#include <locale.h>
+char *__real_setlocale(int, const char *);
+static const char *sim_locale_for(const char *catname) {
+    const char *v = __wrap_getenv("LC_ALL"); if (v && *v) return v;
+    v = __wrap_getenv(catname); if (v && *v) return v;
+    v = __wrap_getenv("LANG"); if (v && *v) return v;
+    return "C";
+}
+char *__wrap_setlocale(int cat, const char *loc) {
+    if (!cur || !loc || loc[0]) return __real_setlocale(cat, loc);
+    static const struct { int c; const char *n; } cats[] = { { LC_CTYPE, "LC_CTYPE" }, { LC_NUMERIC, "LC_NUMERIC" }, { LC_TIME, "LC_TIME" }, { LC_COLLATE, "LC_COLLATE" },
+                                                             { LC_MONETARY, "LC_MONETARY" }, { LC_MESSAGES, "LC_MESSAGES" } };
+    char *r = NULL;
+    for (unsigned i = 0; i < sizeof cats / sizeof *cats; i++) if (cat == LC_ALL || cat == cats[i].c) {
+        char *q = __real_setlocale(cats[i].c, sim_locale_for(cats[i].n));
+        if (cat != LC_ALL) r = q;
+    }
+    if (cat == LC_ALL) r = __real_setlocale(LC_ALL, NULL);
+    return r;
+}
 int __wrap_setenv(const char *k, const char *v, int ow) {
     if (!cur) return 0;
     if (!ow && __wrap_getenv(k)) return 0;
